@@ -172,3 +172,13 @@ Proof. exact source_handlers_deadlock_free. Qed.
 Theorem C13_source_lock_programs_cover :
   forall c : nat, (12 <=? Datatypes.length (src_programs c))%nat = true.
 Proof. exact src_programs_cover. Qed.
+
+(* a request that ends — answered, failed or timed out — gives its in-flight slot back, in whatever order requests end
+   (Model/Inflight.v) *)
+From NW Require Import Model.Inflight Proofs.InflightProofs.
+Theorem C13_idle_connection_has_its_whole_window : forall limit evs,
+  let s := fst (irun true limit iinit evs) in running s = [] -> counter s = 0%nat.
+Proof. exact live_idle_connection_has_its_window. Qed.
+
+Theorem C13_source_inflight_decrements_live_counter : NW.Gen.Headroom.inflight_decrements_live_counter = true.
+Proof. reflexivity. Qed.
